@@ -333,18 +333,20 @@ let handle (f : string list) : string =
        | RtUnsup -> "unsupported"
        | RtRes r -> print_rt r)
     with Bad m -> "driver-error:" ^ m)
-  | ["xclaim"; fl; es; realok] ->
+  | ["xclaim"; fl; es; suffix; realok] ->
     (* the theorem through the tie: a printable expression must have survived the real round trip *)
     (try
       let e = parse_ex (toks_of es) in
-      if x_printable (flag fl 0) (flag fl 1) (flag fl 2) e && realok <> "1" then "printable-but-the-real-round-trip-fails"
+      let nxt = (match tks_of_line suffix with [] -> None | t :: _ -> Some t) in
+      if x_printable (flag fl 0) (flag fl 1) (flag fl 2) nxt e && realok <> "1" then "printable-but-the-real-round-trip-fails"
       else "ok"
     with Bad m -> "driver-error:" ^ m)
-  | ["xprintable"; fl; es] ->
+  | ["xprintable"; fl; es; suffix] ->
     (try
       let e = parse_ex (toks_of es) in
-      Printf.sprintf "%d%d" (if x_printable (flag fl 0) (flag fl 1) (flag fl 2) e then 1 else 0)
-        (if x_printable_type (flag fl 0) (flag fl 1) e then 1 else 0)
+      let nxt = (match tks_of_line suffix with [] -> None | t :: _ -> Some t) in
+      Printf.sprintf "%d%d" (if x_printable (flag fl 0) (flag fl 1) (flag fl 2) nxt e then 1 else 0)
+        (if x_printable_type (flag fl 0) (flag fl 1) nxt e then 1 else 0)
     with Bad m -> "driver-error:" ^ m)
   | _ -> "driver-error:unknown-command"
 
